@@ -537,6 +537,80 @@ theorem parseval_full_nd (wo : Cfg ℝ ℂ → ℝ) (gs : List (Cfg ℝ ℂ))
   intro js hjs
   rw [full_grid_inverse_nd _ gs hgs f js (List.forall₂_map_right_iff.mp hjs)]
 
+/-- **Cropped `n`-D FFT grid: the output energy never exceeds the input energy** — iterated
+pipeline on any number of axes, each padded and/or cropped (`N ≤ M`, `Mo ≤ M`), consistent, real
+input weight `wr g`, non-negative output weight `wo g` with `wo·M·w = 1`; energies are sums over
+index lists of `|·|²` times the product of the per-axis weights.  Induction over the axes with
+the 1-D inequality `cropped_energy_le` on the first axis. -/
+theorem cropped_energy_le_nd (wr wo : Cfg ℝ ℂ → ℝ) (gs : List (Cfg ℝ ℂ))
+    (hgs : ∀ g ∈ gs, g.Mo ≤ g.M ∧ g.N ≤ g.M ∧ g.dT * (g.M : ℝ) * g.δ = 1 ∧
+      g.w = ((wr g : ℝ) : ℂ) ∧ ((wo g : ℝ) : ℂ) * (g.M : ℂ) * g.w = 1 ∧ 0 ≤ wo g)
+    (f : List ℕ → ℂ) :
+    sumOverN (gs.map fun g => g.Mo) (fun ks => Complex.normSq (fastForwardN expT expE gs f ks))
+        * (gs.map wo).prod
+      ≤ sumOverN (gs.map fun g => g.N) (fun js => Complex.normSq (f js)) * (gs.map wr).prod := by
+  induction gs generalizing f with
+  | nil => simp [sumOverN, fastForwardN_nil]
+  | cons g gs ih =>
+    obtain ⟨hMo, hN, hc, hgw, hw, hwo⟩ := hgs g (List.mem_cons_self ..)
+    have ih' := ih (fun g' hg' => hgs g' (List.mem_cons_of_mem _ hg'))
+    have hwr : 0 ≤ wr g := wr_nonneg g (wr g) (wo g) hgw hw hwo
+    have hWo : 0 ≤ (gs.map wo).prod := by
+      apply List.prod_nonneg
+      intro x hx
+      obtain ⟨g', hg', rfl⟩ := List.mem_map.mp hx
+      exact (hgs g' (List.mem_cons_of_mem _ hg')).2.2.2.2.2
+    simp only [List.map_cons, List.prod_cons, sumOverN, sumRange_eq]
+    calc (∑ k ∈ range g.Mo, sumOverN (gs.map fun g => g.Mo) fun idx =>
+            Complex.normSq (fastForwardN expT expE (g :: gs) f (k :: idx))) * (wo g * (gs.map wo).prod)
+        = sumOverN (gs.map fun g => g.Mo) (fun ks => ∑ k ∈ range g.Mo,
+            Complex.normSq (fastForward expT expE g
+              (fun i => fastForwardN expT expE gs (fun idx => f (i :: idx)) ks) k) * wo g)
+            * (gs.map wo).prod := by
+          rw [sumOverN_finset_sum]
+          simp only [sumOverN_mul_right, fastForwardN_cons]
+          rw [← Finset.sum_mul]
+          ring
+      _ ≤ sumOverN (gs.map fun g => g.Mo) (fun ks => ∑ i ∈ range g.N,
+            Complex.normSq (fastForwardN expT expE gs (fun idx => f (i :: idx)) ks) * wr g)
+            * (gs.map wo).prod := by
+          apply mul_le_mul_of_nonneg_right _ hWo
+          apply sumOverN_mono
+          intro ks
+          exact cropped_energy_le g (wr g) (wo g) hMo hN hc hgw hw hwo _
+      _ = ∑ i ∈ range g.N, (sumOverN (gs.map fun g => g.Mo) (fun ks =>
+            Complex.normSq (fastForwardN expT expE gs (fun idx => f (i :: idx)) ks))
+              * (gs.map wo).prod) * wr g := by
+          rw [sumOverN_finset_sum]
+          simp only [sumOverN_mul_right]
+          rw [Finset.sum_mul]
+          exact Finset.sum_congr rfl fun _ _ => by ring
+      _ ≤ ∑ i ∈ range g.N, (sumOverN (gs.map fun g => g.N) (fun js =>
+            Complex.normSq (f (i :: js))) * (gs.map wr).prod) * wr g := by
+          apply Finset.sum_le_sum
+          intro i _
+          exact mul_le_mul_of_nonneg_right (ih' fun idx => f (i :: idx)) hwr
+      _ = _ := by
+          rw [Finset.sum_mul]
+          exact Finset.sum_congr rfl fun _ _ => by ring
+
+/-- satisfiability of the hypothesis bundle of `cropped_energy_le_nd`: a cropped axis
+(`N = 2, M = 4, Mo = 3`) and a full one, `δ = w = 1/2`, `wo = dT` -/
+example : ∃ (wr wo : Cfg ℝ ℂ → ℝ) (gs : List (Cfg ℝ ℂ)), gs.length = 2 ∧
+    ∀ g ∈ gs, g.Mo ≤ g.M ∧ g.N ≤ g.M ∧ g.dT * (g.M : ℝ) * g.δ = 1 ∧
+      g.w = ((wr g : ℝ) : ℂ) ∧ ((wo g : ℝ) : ℂ) * (g.M : ℂ) * g.w = 1 ∧ 0 ≤ wo g :=
+  ⟨fun _ => 1 / 2, fun g => g.dT,
+    [{ N := 2, M := 4, Mo := 3, δ := 1 / 2, z := 0, dT := 1 / 2, s := 0, w := ((1 / 2 : ℝ) : ℂ), emu := true },
+     { N := 2, M := 2, Mo := 2, δ := 1 / 2, z := 1, dT := 1, s := 1 / 3, w := ((1 / 2 : ℝ) : ℂ), emu := false }],
+    rfl, by
+      intro g hg
+      simp only [List.mem_cons, List.not_mem_nil, or_false] at hg
+      rcases hg with rfl | rfl
+      · refine ⟨by norm_num, by norm_num, by norm_num, rfl, ?_, by norm_num⟩
+        push_cast; norm_num
+      · refine ⟨by norm_num, by norm_num, by norm_num, rfl, ?_, by norm_num⟩
+        push_cast; norm_num⟩
+
 /-- **`n`-axis ZoomFastFourierTransform: `backward` is the adjoint of `forward`** — the axis loops
 `zoomForwardN` (on `field·input_weights`) and `zoomBackwardN` (on `field·output_weights`) of
 Model/ZoomN.lean, any list of axes, any two regular grids, per-point weights (output weights
